@@ -4,6 +4,7 @@ import (
 	"bytes"
 	"crypto"
 	stded "crypto/ed25519"
+	"crypto/rsa"
 	"crypto/sha512"
 	"errors"
 	"fmt"
@@ -136,9 +137,21 @@ func runC07(c *core.Ctx) {
 					c.Violate("C07/signer/accepts-prehash", fmt.Sprintf("PrivateKey.Sign accepted opts.HashFunc()=%d", h), int(h), "", nil)
 				}
 			}
-			s, err := priv.Sign(nil, msg, &c07opts{crypto.SHA512})
-			if err == nil || s != nil {
-				c.Violate("C07/signer/accepts-prehash", "PrivateKey.Sign accepted a custom SignerOpts with SHA-512", nil, "", nil)
+			for name, o := range map[string]crypto.SignerOpts{"custom struct": &c07opts{crypto.SHA512}, "*crypto/ed25519.Options{SHA-512}": &stded.Options{Hash: crypto.SHA512},
+				"*rsa.PSSOptions{SHA-256}": &rsa.PSSOptions{Hash: crypto.SHA256}, "custom struct SHA-1": &c07opts{crypto.SHA1}} {
+				s, err := priv.Sign(nil, msg, o)
+				if err == nil || s != nil {
+					c.Violate("C07/signer/accepts-prehash", "PrivateKey.Sign accepted pre-hashed input announced through a "+name, name, "", nil)
+				}
+			}
+			for name, o := range map[string]crypto.SignerOpts{"custom struct, hash 0": &c07opts{crypto.Hash(0)}, "*crypto/ed25519.Options{}": &stded.Options{}} {
+				s, err := priv.Sign(nil, msg, o)
+				if err != nil || !bytes.Equal(s, stded.Sign(std, msg)) {
+					c.Violate("C07/signer/differs", "PrivateKey.Sign with "+name+" differs from Sign", name, "", nil)
+				}
+			}
+			if !bytes.Equal(priv, std) {
+				c.Violate("C07/signer/key-modified", "PrivateKey.Sign modified the key it was called on", nil, "", nil)
 			}
 		}
 		// GenerateKey over scripted readers
